@@ -80,7 +80,10 @@ package encoding
 //@   requires o != nil && noDupInts(o.Keys)
 //@   ensures[gone] !inDom(o.Fields, key)
 //@   ensures[others] forallT(k, int, k != key ==> inDom(o.Fields, k) == old(inDom(o.Fields, k)) && o.Fields[k] == old(o.Fields[k]))
+//@   ensures[nodup] noDupInts(o.Keys)
+//@   ensures[keys-array] refOf(o.Keys) == refOf(old(o.Keys))
 //@   modifies o.Keys, mapOf(o.Fields), elems(o.Keys)
+//@   loop 0 invariant noDupInts(o.Keys)
 //@   loop 0 invariant 0 <= i && i <= len(old(o.Keys)) && refOf(o.Keys) == refOf(old(o.Keys)) && sameStart(o.Keys, old(o.Keys)) && cap(o.Keys) == cap(old(o.Keys))
 //@   loop 0 invariant (len(o.Keys) == len(old(o.Keys)) && elems(o.Keys) == old(elems(o.Keys)) && forall(j, 0, i, old(o.Keys[j]) != key)) || (len(o.Keys) + 1 == len(old(o.Keys)) && forall(j, i, len(old(o.Keys)), old(o.Keys)[j] != key))
 //@   loop 0 invariant !inDom(o.Fields, key) && forallT(k, int, k != key ==> inDom(o.Fields, k) == old(inDom(o.Fields, k)) && o.Fields[k] == old(o.Fields[k])) && o.Fields == old(o.Fields)
@@ -132,7 +135,10 @@ package encoding
 //@   requires o != nil && noDupStrings(o.Keys)
 //@   ensures[gone] !inDom(o.Fields, key)
 //@   ensures[others] forallT(k, string, k != key ==> inDom(o.Fields, k) == old(inDom(o.Fields, k)) && o.Fields[k] == old(o.Fields[k]))
+//@   ensures[nodup] noDupStrings(o.Keys)
+//@   ensures[keys-array] refOf(o.Keys) == refOf(old(o.Keys))
 //@   modifies o.Keys, mapOf(o.Fields), elems(o.Keys)
+//@   loop 0 invariant noDupStrings(o.Keys)
 //@   loop 0 invariant 0 <= i && i <= len(old(o.Keys)) && refOf(o.Keys) == refOf(old(o.Keys)) && sameStart(o.Keys, old(o.Keys)) && cap(o.Keys) == cap(old(o.Keys))
 //@   loop 0 invariant (len(o.Keys) == len(old(o.Keys)) && elems(o.Keys) == old(elems(o.Keys)) && forall(j, 0, i, old(o.Keys[j]) != key)) || (len(o.Keys) + 1 == len(old(o.Keys)) && forall(j, i, len(old(o.Keys)), old(o.Keys)[j] != key))
 //@   loop 0 invariant !inDom(o.Fields, key) && forallT(k, string, k != key ==> inDom(o.Fields, k) == old(inDom(o.Fields, k)) && o.Fields[k] == old(o.Fields[k])) && o.Fields == old(o.Fields)
@@ -223,48 +229,151 @@ package encoding
 
 // ---------------------------------------------------------------- reflection walk (outside the verifier's reach)
 
+// The walk itself is verified with reflect's accessors TOTAL and OPAQUE (A-REFLECT-TOTAL, see
+// /verif/assumed/reflect.spec): what is proved is everything that is psatoken's own -- no index /
+// slice / nil / map panic outside reflect, the ordered-map protocol (Get / Delete under the no-duplicate
+// invariant, Add), the frame (only the ordered map is written in tracked memory), termination of the
+// three loops. What the walk does to the destination is covered by the bounded stand-ins alone.
+//@ spec embedsOK(s []embedded) bool = forall(k, 0, len(s), dynType(s[k].Type) != 0)
+
+//@ func encoding.collectEmbedded
+//@   property C05 C06 C15
+//@   requires typeField != nil && embeds != nil && dynType(typeField.Type) != 0 && embedsOK(*embeds)
+//@   ensures[embeds] embedsOK(*embeds)
+//@   ensures[arr] refOf(*embeds) == refOf(old(*embeds)) || fresh(*embeds)
+//@   modifies *embeds, elems(*embeds)
+
 //@ func encoding.doPopulateStructFromCBOR
-//@   trusted walks dest with reflect; exercised by the bounded stand-ins reflect-cbor / reflect-json and audited
-//@   requires rawMap != nil
-//@   ensures true
+//@   property C05 C06 C15
+//@   requires rawMap != nil && dm != nil && dynType(structType) != 0 && noDupInts(rawMap.Keys)
+//@   ensures[nodup] noDupInts(rawMap.Keys)
+//@   ensures[keys-array] refOf(rawMap.Keys) == refOf(old(rawMap.Keys))
 //@   modifies rawMap.Keys, mapOf(rawMap.Fields), elems(rawMap.Keys)
+//@   option assume-recursion-terminates=each recursive call descends into the type of an embedded field; Go types nest finitely
+//@   loop 0 invariant i >= 0
+//@   loop 0 invariant noDupInts(rawMap.Keys)
+//@   loop 0 invariant refOf(rawMap.Keys) == refOf(old(rawMap.Keys))
+//@   loop 0 invariant embedsOK(embeds)
+//@   loop 0 invariant (embeds == nil || fresh(embeds))
+//@   loop 0 invariant dynType(structType) != 0
+//@   loop 0 decreases rvNumField(structVal) - i
+//@   loop 1 invariant rangeindex >= -1
+//@   loop 1 invariant rangeindex < len(parts) - 1
+//@   loop 2 invariant rangeindex >= -1
+//@   loop 2 invariant rangeindex < len(embeds)
+//@   loop 2 invariant embedsOK(embeds)
+//@   loop 2 invariant noDupInts(rawMap.Keys)
+//@   loop 2 invariant refOf(rawMap.Keys) == refOf(old(rawMap.Keys))
 
 //@ func encoding.doPopulateStructFromJSON
-//@   trusted walks dest with reflect; exercised by the bounded stand-ins reflect-cbor / reflect-json and audited
-//@   requires rawMap != nil
-//@   ensures true
+//@   property C05 C06 C15
+//@   requires rawMap != nil && dynType(structType) != 0 && noDupStrings(rawMap.Keys)
+//@   ensures[nodup] noDupStrings(rawMap.Keys)
+//@   ensures[keys-array] refOf(rawMap.Keys) == refOf(old(rawMap.Keys))
 //@   modifies rawMap.Keys, mapOf(rawMap.Fields), elems(rawMap.Keys)
+//@   option assume-recursion-terminates=each recursive call descends into the type of an embedded field; Go types nest finitely
+//@   loop 0 invariant i >= 0
+//@   loop 0 invariant noDupStrings(rawMap.Keys)
+//@   loop 0 invariant refOf(rawMap.Keys) == refOf(old(rawMap.Keys))
+//@   loop 0 invariant embedsOK(embeds)
+//@   loop 0 invariant (embeds == nil || fresh(embeds))
+//@   loop 0 invariant dynType(structType) != 0
+//@   loop 0 decreases rvNumField(structVal) - i
+//@   loop 1 invariant rangeindex >= -1
+//@   loop 1 invariant rangeindex < len(parts) - 1
+//@   loop 2 invariant rangeindex >= -1
+//@   loop 2 invariant rangeindex < len(embeds)
+//@   loop 2 invariant embedsOK(embeds)
+//@   loop 2 invariant noDupStrings(rawMap.Keys)
+//@   loop 2 invariant refOf(rawMap.Keys) == refOf(old(rawMap.Keys))
 
+// Serialising side: fields are added to the ordered map (Add refuses a key that is already there, so
+// the no-duplicate invariant is kept); the keys array is the old one or one allocated here.
 //@ func encoding.doSerializeStructToCBOR
-//@   trusted walks source with reflect; exercised by the bounded stand-ins reflect-cbor / reflect-json and audited
-//@   requires rawMap != nil
+//@   property C05 C06 C15
+//@   requires rawMap != nil && em != nil && dynType(structType) != 0 && omInvCBOR(rawMap)
+//@   ensures[inv] omInvCBOR(rawMap)
 //@   ensures[keys-array] refOf(rawMap.Keys) == refOf(old(rawMap.Keys)) || fresh(rawMap.Keys)
-//@   ensures[bounded-len] len(rawMap.Keys) <= 0xffffffff
+//@   ensures[same-map] rawMap.Fields == old(rawMap.Fields)
+//@   assumes[bounded-len] len(rawMap.Keys) <= 0xffffffff :: one key per struct field: a Go struct, with everything it embeds, has far fewer than 2^32 fields (ToCBOR's 4-byte header is the widest it writes)
 //@   modifies rawMap.Keys, mapOf(rawMap.Fields), elems(rawMap.Keys)
+//@   option assume-recursion-terminates=each recursive call descends into the type of an embedded field; Go types nest finitely
+//@   loop 0 invariant i >= 0
+//@   loop 0 invariant omInvCBOR(rawMap)
+//@   loop 0 invariant rawMap.Fields == old(rawMap.Fields)
+//@   loop 0 invariant (refOf(rawMap.Keys) == refOf(old(rawMap.Keys)) || fresh(rawMap.Keys))
+//@   loop 0 invariant embedsOK(embeds)
+//@   loop 0 invariant (embeds == nil || fresh(embeds))
+//@   loop 0 invariant dynType(structType) != 0
+//@   loop 0 decreases rvNumField(structVal) - i
+//@   loop 1 invariant rangeindex >= -1
+//@   loop 1 invariant rangeindex < len(parts) - 1
+//@   loop 2 invariant rangeindex >= -1
+//@   loop 2 invariant rangeindex < len(embeds)
+//@   loop 2 invariant embedsOK(embeds)
+//@   loop 2 invariant omInvCBOR(rawMap)
+//@   loop 2 invariant rawMap.Fields == old(rawMap.Fields)
+//@   loop 2 invariant (refOf(rawMap.Keys) == refOf(old(rawMap.Keys)) || fresh(rawMap.Keys))
 
 //@ func encoding.doSerializeStructToJSON
-//@   trusted walks source with reflect; exercised by the bounded stand-ins reflect-cbor / reflect-json and audited
-//@   requires rawMap != nil
-//@   ensures true
+//@   property C05 C06 C15
+//@   requires rawMap != nil && dynType(structType) != 0 && omInvJSON(rawMap)
+//@   ensures[inv] omInvJSON(rawMap)
+//@   ensures[keys-array] refOf(rawMap.Keys) == refOf(old(rawMap.Keys)) || fresh(rawMap.Keys)
+//@   ensures[same-map] rawMap.Fields == old(rawMap.Fields)
 //@   modifies rawMap.Keys, mapOf(rawMap.Fields), elems(rawMap.Keys)
+//@   option assume-recursion-terminates=each recursive call descends into the type of an embedded field; Go types nest finitely
+//@   loop 0 invariant i >= 0
+//@   loop 0 invariant omInvJSON(rawMap)
+//@   loop 0 invariant rawMap.Fields == old(rawMap.Fields)
+//@   loop 0 invariant (refOf(rawMap.Keys) == refOf(old(rawMap.Keys)) || fresh(rawMap.Keys))
+//@   loop 0 invariant embedsOK(embeds)
+//@   loop 0 invariant (embeds == nil || fresh(embeds))
+//@   loop 0 invariant dynType(structType) != 0
+//@   loop 0 decreases rvNumField(structVal) - i
+//@   loop 1 invariant rangeindex >= -1
+//@   loop 1 invariant rangeindex < len(parts) - 1
+//@   loop 2 invariant rangeindex >= -1
+//@   loop 2 invariant rangeindex < len(embeds)
+//@   loop 2 invariant embedsOK(embeds)
+//@   loop 2 invariant omInvJSON(rawMap)
+//@   loop 2 invariant rawMap.Fields == old(rawMap.Fields)
+//@   loop 2 invariant (refOf(rawMap.Keys) == refOf(old(rawMap.Keys)) || fresh(rawMap.Keys))
+
+//@ func encoding.doGetProfileJSONTag
+//@   property C07 C16 C12 C05
+//@   requires dynType(structType) != 0
+//@   ensures[err] true
+//@   modifies nothing
+//@   option assume-recursion-terminates=each recursive call descends into the type of an embedded field; Go types nest finitely
+//@   loop 0 invariant i >= 0
+//@   loop 0 invariant embedsOK(embeds)
+//@   loop 0 invariant (embeds == nil || fresh(embeds))
+//@   loop 0 invariant dynType(structType) != 0
+//@   loop 0 decreases rvNumField(structVal) - i
+//@   loop 1 invariant rangeindex >= -1
+//@   loop 1 invariant rangeindex < len(embeds)
+//@   loop 1 invariant embedsOK(embeds)
 
 //@ func encoding.PopulateStructFromCBOR
 //@   property C05 C06 C15
-//@   requires dm != nil
+//@   requires dm != nil && dest != nil
 //@   modifies nothing
 
 //@ func encoding.PopulateStructFromJSON
 //@   property C05 C06 C15
+//@   requires dest != nil
 //@   modifies nothing
 
 //@ func encoding.SerializeStructToCBOR
 //@   property C05 C15
-//@   requires em != nil
+//@   requires em != nil && source != nil
 //@   ensures[err] ret1 != nil ==> ret0 == nil
 //@   modifies nothing
 
 //@ func encoding.SerializeStructToJSON
 //@   property C05 C15
+//@   requires source != nil
 //@   ensures[err] ret1 != nil ==> ret0 == nil
 //@   modifies nothing
 
